@@ -1012,6 +1012,68 @@ def stream_evolution(ctx, quick):
             ctx.viol(fl["what"], fl["cls"], dict(kind="evolution", case=sc, detail={k: v for k, v in fl.items() if k != "cls"}))
 
 
+def hof_case(ctx, sc):
+    """a pinned caller passes its callee as an *argument* to another memento function: the stored invocation then holds a
+    function reference among its arguments. After the callee is re-versioned / removed every read must still work and the
+    caller's own entry must still be served."""
+    import c12world as W
+    cf, evo, idx = sc["cf"], sc["evo"], sc["idx"]
+    fm = "c12h%d_a" % idx
+
+    def src(gversion, gbody, with_g=True):
+        g = "%s\ndef g(x):\n    return %s\n" % (W.deco(cf, gversion), gbody) if with_g else ""
+        call = "ap(g, x)" if with_g else "x"
+        return {fm: W.HEADER + g +
+                "%s\ndef ap(fn, x):\n    return fn(x) if fn is not None else x\n" % W.deco(cf, "ap1") +
+                "%s\ndef f(x):\n    REC.calls.append(('f', x))\n    return [%s, 1]\n" % (W.deco(cf, "f1"), call)}
+    e0 = src("a:1", "x * 2")
+    e1 = {"reversion": src("a:2", "x * 3"), "remove": src(None, None, with_g=False), "same": src("a:1", "x * 2")}[evo]
+    root = ctx.new_root()
+    clusters = {c: None for c in ([None] if cf is None else [None, cf])}
+    fails = []
+    base = {"clause": "evolution", "evo": "function-argument:" + evo, "caller_cluster": "default" if cf is None else "named", "backend": "fs"}
+
+    def phase(ed):
+        W.install_edition(ed, ctx.owned)
+        W.make_env(root, clusters, "fs")
+        return W.guarded(lambda: W.observe_function(fm, "f", 3, [cf]))
+    ok0, obs0 = phase(e0)
+    if not ok0 or not obs0["call"][0] or not obs0["memento"][0] or obs0["memento"][1] is None:
+        return [dict(what="storing the caller's result under the first edition failed", cls=dict(base, api="store"), obs=obs0)]
+    ok1, obs1 = phase(e1)
+    if not ok1:
+        return [dict(what="observing the caller under the evolved code base raised", cls=dict(base, api="observe"), error=obs1)]
+    for api in ("call", "memento", "list_mementos"):
+        if not obs1[api][0]:
+            fails.append(dict(what="%s raised after the function passed as an argument evolved" % api, cls=dict(base, api=api), error=obs1[api][1]))
+    for cname, (ok, v) in obs1["list_functions"].items():
+        if not ok:
+            fails.append(dict(what="list_memoized_functions raised after the function passed as an argument evolved",
+                              cls=dict(base, api="list_memoized_functions"), error=v))
+    if obs1["call"][0] and (obs1["executed"] != 0 or obs1["call"][1] != obs0["call"][1]):
+        fails.append(dict(what="the caller's own version is current but its stored result was not served", cls=dict(base, api="call"),
+                          executed=obs1["executed"], before=obs0["call"][1], after=obs1["call"][1]))
+    if obs1["memento"][0] and obs1["memento"][1] is None:
+        fails.append(dict(what="memento() returns None although the caller's own version is current", cls=dict(base, api="memento")))
+    if obs1["list_mementos"][0] and len(obs1["list_mementos"][1]) != 1:
+        fails.append(dict(what="list_mementos() does not return the stored entry", cls=dict(base, api="list_mementos"), got=obs1["list_mementos"][1]))
+    return fails
+
+
+def stream_hof(ctx, quick):
+    chk = ctx.chk
+    i = 0
+    for evo in ("same", "reversion", "remove"):
+        for cf in (None, "kh"):
+            sc = dict(evo=evo, cf=cf, idx=i)
+            i += 1
+            fails = hof_case(ctx, sc)
+            chk.case(["evolution-function-argument", sc], nontrivial=True, sample=dict(stream="evolution-function-argument", **sc) if i == 2 else None)
+            chk.count("evolution:function-argument:" + evo)
+            for fl in fails:
+                ctx.viol(fl["what"], fl["cls"], dict(kind="hof", case=sc, detail={k: v for k, v in fl.items() if k != "cls"}))
+
+
 # ----------------------------------------------------------------------------------------------
 
 def replay_main(chk, replay):
@@ -1037,6 +1099,8 @@ def replay_main(chk, replay):
         fails = store_case(ctx, r["case"])
     elif kind == "evolution":
         fails = evo_case(ctx, r["case"])
+    elif kind == "hof":
+        fails = hof_case(ctx, r["case"])
     else:
         print(json.dumps(dict(note="this replay names a broken proof obligation / correspondence stream; re-run the check itself",
                               still_fails=None)))
@@ -1071,7 +1135,7 @@ def main(chk, replay=None):
     try:
         import time
         for name, fn in (("names", stream_names), ("files", stream_files), ("resolve", stream_resolve),
-                         ("store", stream_store), ("evolution", stream_evolution)):
+                         ("store", stream_store), ("evolution", stream_evolution), ("hof", stream_hof)):
             t0 = time.time()
             fn(ctx, quick)
             chk.extra["stream_%s_s" % name] = round(time.time() - t0, 1)
